@@ -34,6 +34,10 @@ def _run(ctx):
         "in the model the per-point refresh value depends on the entry order, the minimum over the committed points does not "
         "(TLC invariant SnapshotOrderIndependent); the replay therefore expects the same value in both passes and would log "
         "an order-dependent value inside the model's window as no divergence",
+        "the deadline of what is served: pairs of fault-free worlds with the same payload, the second expiring earlier, are "
+        "validated one after the other and installed in one SharedHistory (the Install step of RunLoop.tla, which replaces the "
+        "snapshot also when the payload did not change); the snapshot the history hands out afterwards must carry the second "
+        "world's deadline (24 pairs, thorough 120, per exported set)",
     ]
     rule = ("every exported world (TA -> CA2 -> {CA3, CA4}, 5 ROAs; 21 timed elements: 4 CA certificates, per CA manifest EE "
             "notAfter / manifest nextUpdate / CRL nextUpdate, per ROA EE notAfter; up to two of them short; none, one or two "
@@ -48,8 +52,8 @@ _NOTE = ("TLC checks Refresh.tla: the operational model (task queue, point_valid
          "over committed points) never exceeds the declarative bound, per point and for the snapshot, and four mutants (CRL "
          "nextUpdate ignored, manifest EE ignored, ROA EE ignored, no inheritance from the parent) are rejected. Every world is "
          "replayed through the unmodified engine; the observed refresh equals the model value in all worlds. Not covered: router "
-         "certificates and ASPA objects (same update_refresh call), RRDP, the stored-data path after an aborted update "
-         "(PubPoint::restart), SLURM.")
+         "certificates and ASPA objects (same update_refresh call), RRDP, SLURM. The stored-data path after an aborted update "
+         "and the snapshot served after a second run with unchanged payload are replayed as two-run histories.")
 _TECH = ("TLA+ model of the refresh-time computation (Refresh.tla) checked by TLC against a declarative bound; every exported world "
          "replayed as real signed objects through the engine")
 
